@@ -157,6 +157,12 @@ def run(ctx):
             pool = present + r.sample(ALL_HEADERS, 3)
             want = r.sample(pool, r.randrange(0, len(pool) + 1))
             want = list(dict.fromkeys(want))
+            if want and k % 5 == 0:
+                # a selection that repeats its pairs up to a length at, just below or just above the number of tracks the format
+                # has (40), of pairs it has per instrument (4) or per difficulty (10): length is not content
+                n_ = r.choice([39, 40, 41, 40, 4, 10, 80])
+                want = [want[j % len(want)] for j in range(n_)]
+                r.shuffle(want)
         rec, text = sel_record(r, f"s{k}", present, poison, want, form=r.choice(forms), kinds=8)
         recs.append(rec)
         texts[rec["id"]] = text
